@@ -5,10 +5,12 @@ import Chewing.Model.Owned
 import Chewing.Gen.CApi
 import Chewing.Driver.Util
 /-!
-`cstr …` / `own …` records of harness/src/bin/capi_mem.rs (C15).
+`cstr …` / `own …` records of harness/src/bin/capi_mem.rs and capi_caller.rs (C15).
 
     cstr copy <cap> x<text>              => b<bytes up to the last non-zero byte> <trailing zero bytes>
     cstr get <which> <cap> x<heap text>  => b<…> <…>          (a context buffer after its static getter)
+    cstr caller <fn> <param> <cap> x<text> => <w> b<the w bytes written from offset 0>   (capi_caller.rs: caller buffers)
+    cstr callerparams                    => <fn>:<buf>:<len>,…   (the `*mut c_char` out-parameters, generated table)
     cstr valid b<bytes>                  => 0|1               (`utf8Decode` vs `str::from_utf8`)
     cstr selkeys <k0,…,k9>               => 0 x<text> | -1 -  (`chewing_config_get_str("chewing.selection_keys")` for these keys)
     own run <call,…>                     => ok                (else `ub@i:<site>`, `ret@i:<fn>:<model result>`, `heap@i:<fn>`, `parse@i`)
@@ -58,6 +60,17 @@ def cstrExpected (fn : String) (args : List String) : Option String :=
     else match selKeysCStr keys with
       | none => some "-1 -"
       | some buf => (cText buf).map fun t => s!"0 {hexBytes 'x' t}"
+  | "caller", [f, param, cap, x] =>
+    -- a caller-buffer write: the kind of the parameter comes from the table generated from capi/src/io.rs
+    match callerBufParams.find? (fun r => r.1 == f && r.2.1 == param) with
+    | some (_, _, _, kind) =>
+      let w := if kind == 0 then
+          (if callerCopyShape == 1 then callerCopy (natOf cap) (unhex x) else callerCopyOld (natOf cap) (unhex x))
+        else fitCopy (natOf cap) (unhex x)
+      some s!"{w.length} {hexBytes 'b' w}"
+    | none => none
+  | "callerparams", [] =>
+    some (",".intercalate (callerBufParams.map fun r => s!"{r.1}:{r.2.1}:{r.2.2.1}"))
   | "valid", [b] => some (if (Chewing.CStr.utf8Decode (unhex b)).isSome then "1" else "0")
   | _, _ => none
 
